@@ -106,7 +106,7 @@ func H_C17_lines() {
 // C17.getlocal — debug.getlocal enumerates exactly the named variables in scope, in declaration
 // order, with their current values; setlocal changes exactly that variable.
 //
-//verif:harness prop=C17 tier=quick bounds="3 query points in one template, index n in 1..5, 2 symbolic float64 values"
+//verif:harness prop=C17 tier=quick bounds="5 query points (block scopes, vararg function entered with extra arguments), index n in 1..5, 2 symbolic float64 values"
 func H_C17_getlocal() {
 	L := newL(Options{}, BaseLibName, DebugLibName)
 	x, y := VFloat("x"), VFloat("y")
@@ -114,7 +114,7 @@ func H_C17_getlocal() {
 	L.G.Global.RawSetString("y", LNumber(y))
 	n := 1 + VChoice(5)
 	L.G.Global.RawSetString("n", LNumber(n))
-	point := VChoice(3)
+	point := VChoice(5)
 	src := []string{
 		// inside the block: a, b, c in scope
 		`local a = x; local b = 2; do local c = y; return debug.getlocal(1, n) end`,
@@ -122,6 +122,9 @@ func H_C17_getlocal() {
 		`local a = x; local b = 2; do local c = y end; return debug.getlocal(1, n)`,
 		// setlocal changes exactly the chosen variable
 		`local a = x; local b = 2; local c = y; debug.setlocal(1, n, 7); return a, b, c`,
+		// the same inside a vararg function entered with extra arguments
+		`local function f(a, b, ...) local c = y; debug.setlocal(1, n, 7); return a, b, c end; return f(x, 2, 8, 9)`,
+		`local function f(a, b, ...) local c = y; return debug.getlocal(1, n) end; return f(x, 2, 8, 9)`,
 	}[point]
 	err := loadRun(L, src, 3)
 	VAssert(err == nil, "getlocal: runs")
@@ -140,7 +143,15 @@ func H_C17_getlocal() {
 			nm, isStr := L.Get(1).(LString)
 			VAssert(L.Get(1) == LNil || (isStr && len(nm) > 0 && nm[0] == '('), "getlocal: beyond the locals in scope there is nothing (or a temporary)")
 		}
-	case 2:
+	case 4:
+		// a, b, (arg,) c: the compat `arg` local sits between the parameters and c
+		if n <= 2 {
+			VAssert(L.Get(1) == LString(names[n-1]) && sameValue(L.Get(2), vals[n-1]), "getlocal: parameters of a vararg function called with extra arguments")
+		}
+	case 2, 3:
+		if point == 3 && n >= 3 {
+			break // index 3 is the hidden arg table in a vararg function
+		}
 		for i := 0; i < 3; i++ {
 			if i == n-1 {
 				VAssert(L.Get(i+1) == LNumber(7), "setlocal: the chosen variable is changed")
